@@ -852,6 +852,34 @@ Section WithHash.
   Definition steps_of (id : N) (l : list txrec) : list lstep :=
     map (fun t => body_step (tx_body t)) (filter (fun t => body_id (tx_body t) =? id) l).
 
+  (* a committed transaction with commit id [c] and body [b] is in the log *)
+  Definition has (l : list txrec) (c : N) (b : body) : Prop :=
+    exists t, In t l /\ tx_lsn t = c /\ tx_body t = b.
+
+  (* a returned authority is justified by a committed record *)
+  Definition grant_backed (o : out) (l : list txrec) : Prop :=
+    match o with
+    | OutToken r c => has l c (BRequest r)
+    | OutGrant r cl c => has l c (BClaim cl) /\ cl_request cl = rq_id r
+    | OutAdmitted s c => has l c (BSettle s)
+    | _ => True
+    end.
+
+  (* a successful claim_external_action for request id [k] in a trace *)
+  Definition is_claim_grant (k : N) (x : op * out) : bool :=
+    match x with
+    | (OClaim _ _ _ _ _ _, OutGrant r _ _) => rq_id r =? k
+    | _ => false
+    end.
+
+  Definition op_fault (o : op) : fault :=
+    match o with
+    | ORequest _ f | OClaim _ _ _ _ _ f | OSettle _ _ _ _ f => f
+    | _ => NoFault
+    end.
+  Definition is_grant (o : out) : bool :=
+    match o with OutToken _ _ | OutGrant _ _ _ | OutAdmitted _ _ => true | _ => false end.
+
   (* the sparse Merkle root as a function of the leaves alone: [f] maps the remaining key bits
      to the leaf hash stored there *)
   Fixpoint spec_tree (n d : nat) (f : path -> option N) : N :=
